@@ -6,6 +6,7 @@ import json
 
 from hypothesis import strategies as st
 
+from reactivex.notification import OnNext
 from reactivex.subject import AsyncSubject, BehaviorSubject, ReplaySubject, Subject
 
 from vlib.core import FAIL, OK, SKIP, Check, HarnessError
@@ -56,6 +57,8 @@ def _pre(x):
     """Structural view of library dataclasses (TimeInterval, Timestamp), which vlib.values.canon would render by repr()."""
     if dataclasses.is_dataclass(x) and not isinstance(x, type):
         return ("dc:" + type(x).__name__,) + tuple(_pre(getattr(x, f.name)) for f in dataclasses.fields(x))
+    if isinstance(x, OnNext):
+        return OnNext(_pre(x.value))
     if type(x) is tuple:
         return tuple(_pre(e) for e in x)
     if type(x) is list:
@@ -334,7 +337,7 @@ def _per_op_cases():
     def _c(draw):
         name = draw(st.sampled_from(names))
         o = OPS[name]
-        src = {"kind": draw(st.sampled_from(["cold", "hot", "sync"])), "tl": draw(timelines(max_len=7, min_len=3, max_dt=2, values=DOMAIN, terminal=("C", "C", "E", None)))}
+        src = {"kind": draw(st.sampled_from(["cold", "hot", "sync"])), "tl": draw(timelines(max_len=8, min_len=4, max_dt=2, values=DOMAIN, terminal=("C", "C", "E", None)))}
         pc = {"root": {"f": "single", "srcs": [src]}, "ops": draw(pre[o.inp]) + [[name, draw(o.args)]]}
         u = draw(_u_full)
         pc = _into_domain(pc, draw(st.integers(0, 15)), u)
@@ -491,7 +494,7 @@ def _run_subject(case):
 def checks(tier):
     q = tier == "quick"
     return [
-        Check("pipelines", _run_pipeline, strategy=_pipe_cases(4 if q else 6), examples={"quick": 1600, "thorough": 16 * 30000}, shards={"quick": 8, "thorough": 16}),
-        Check("per_op", _run_pipeline, strategy=_per_op_cases(), examples={"quick": 1600, "thorough": 16 * 15000}, shards={"quick": 8, "thorough": 16}),
-        Check("subjects", _run_subject, strategy=_subject_cases(2 if q else 3), examples={"quick": 1200, "thorough": 16 * 15000}, shards={"quick": 8, "thorough": 16}),
+        Check("pipelines", _run_pipeline, strategy=_pipe_cases(4 if q else 6), examples={"quick": 1600, "thorough": 16 * 12000}, shards={"quick": 8, "thorough": 16}),
+        Check("per_op", _run_pipeline, strategy=_per_op_cases(), examples={"quick": 2400, "thorough": 16 * 8000}, shards={"quick": 8, "thorough": 16}),
+        Check("subjects", _run_subject, strategy=_subject_cases(2 if q else 3), examples={"quick": 1200, "thorough": 16 * 6000}, shards={"quick": 8, "thorough": 16}),
     ]
